@@ -31,6 +31,10 @@ pub fn vacuum_in_place(
         )));
     }
 
+    // Vacuum replaces the data file: it must not run while a handle has the database open
+    // (the handle would keep writing to the replaced file), nor next to another vacuum.
+    let _db_lock = crate::engine::lock_database(ndb_path)?;
+
     let committed = if wal_path.exists() {
         crate::wal::Wal::replay_committed_from_path(wal_path)?
     } else {
